@@ -300,7 +300,12 @@ func (ts *tokenScanner) Cur() Token {
 		tok.Type = IDENT
 		// strip quotes
 		tok.Text = ts.s.TokenText()
-		tok.Text = tok.Text[1 : len(tok.Text)-1]
+		if len(tok.Text) >= 2 {
+			tok.Text = tok.Text[1 : len(tok.Text)-1]
+		} else {
+			// a lone quote at the end of the input
+			tok.Text = ""
+		}
 	default:
 		tok.Text = ts.s.TokenText()
 		if kw, isKw := keywords[strings.ToUpper(ts.s.TokenText())]; isKw {
@@ -319,9 +324,12 @@ func (ts *tokenScanner) Cur() Token {
 			}
 		} else {
 			tok.Type = STR
-			if ts.cur == String {
+			if ts.cur == String && len(tok.Text) >= 2 {
 				// strip quotes
 				tok.Text = tok.Text[1 : len(tok.Text)-1]
+			} else if ts.cur == String {
+				// a lone quote at the end of the input
+				tok.Text = ""
 			}
 		}
 	}
